@@ -233,6 +233,11 @@ def parse_answer(op, expr, ans):
         return ("crash", ans[6:])
     if ans.startswith("err:exception:"):
         return ("exc", ans[14:])
+    if ans.startswith("err:spelling:"):
+        # the target answered the same request differently for another spelling of the same input (see codec_pyworker.py,
+        # codec_shim_rt.h): ("spelling", name of the spelling, its answer)
+        name, _, alt = ans[13:].partition(":")
+        return ("spelling", name, alt)
     if ans.startswith("err:"):
         return ("err", ans[4:])
     if not ans.startswith("ok"):
@@ -305,6 +310,8 @@ def same_outcome(expr, want, got, nan=False):
         return None
     if got[0] in ("crash", "exc", "garbled", "missing"):
         return got[0] if got[0] != "exc" else "exception:" + got[1].split(":")[0]
+    if got[0] == "spelling":
+        return "input-spelling"
     if want[0] == "err":
         if got[0] == "err":
             if got[1] == want[1] or (got[1] == "invalid" and want[1] in ("bad-array-length", "bad-union-tag", "bad-delimiter-header")):
@@ -421,10 +428,15 @@ def signature(expr, want, got, kind):
 # ------------------------------------------------------------------------------------------------------------
 
 class Req:
-    __slots__ = ("gt", "op", "arg", "text", "origin")
+    """One request.  ops: ser V | serbuf (V, cap) | de bytes | rt V, and the reused-object forms
+    dereuse (bytesA, bytesB): decode A into an object, then B into the SAME object      -> must answer as `de B`
+    rtreuse (V1, V2): round trip of V1, then of V2 through the SAME source / destination -> must answer as `rt V2`
+    (`bop` / `marg`: the plain op and argument whose model answer is expected)."""
+    __slots__ = ("gt", "op", "arg", "text", "origin", "bop", "marg", "mtext")
 
     def __init__(self, gt, op, arg, origin="random"):
         self.gt, self.op, self.arg, self.origin = gt, op, arg, origin
+        self.bop, self.marg = op, arg
         e = gt.expr
         if op in ("ser", "rt"):
             self.text = G.fmt_value(e, arg)
@@ -432,19 +444,44 @@ class Req:
             self.text = G.fmt_value(e, arg[0]) + " " + str(arg[1])
         elif op == "de":
             self.text = arg.hex() or "-"
+        elif op == "dereuse":
+            self.bop, self.marg = "de", arg[1]
+            self.text = (arg[0].hex() or "-") + " " + (arg[1].hex() or "-")
+        elif op == "rtreuse":
+            self.bop, self.marg = "rt", arg[1]
+            self.text = G.fmt_value(e, arg[0]) + " | " + G.fmt_value(e, arg[1])
         else:
             raise ValueError(op)
+        self.mtext = self.text if self.bop == op else (self.marg.hex() or "-") if self.bop == "de" else G.fmt_value(e, self.marg)
 
     def target_line(self):
         return f"{self.op} {self.gt.index} {self.text}"
 
     def model_lines(self):
-        if self.op == "rt":
-            return [f"ser {self.gt.tstr} {self.text}", f"adj {self.gt.tstr} {self.text}"]
-        return [f"{self.op} {self.gt.tstr} {self.text}"]
+        if self.bop == "rt":
+            return [f"ser {self.gt.tstr} {self.mtext}", f"adj {self.gt.tstr} {self.mtext}"]
+        return [f"{self.bop} {self.gt.tstr} {self.mtext}"]
 
     def value(self):
-        return self.arg[0] if self.op == "serbuf" else self.arg
+        return self.marg[0] if self.op == "serbuf" else self.marg
+
+
+def parse_arg(gt, op, text):
+    """Inverse of Req.text (corpus files, replays)."""
+    def hx(t):
+        return b"" if t == "-" else bytes.fromhex(t)
+    if op == "de":
+        return hx(text)
+    if op == "dereuse":
+        a, _, b = text.partition(" ")
+        return (hx(a), hx(b))
+    if op == "serbuf":
+        vs, cap = text.rsplit(" ", 1)
+        return (G.parse_value(gt.expr, vs), int(cap))
+    if op == "rtreuse":
+        a, _, b = text.partition(" | ")
+        return (G.parse_value(gt.expr, a), G.parse_value(gt.expr, b))
+    return G.parse_value(gt.expr, text)
 
 
 def lean_outcomes(drv, reqs, want=None, texts=None):
@@ -459,11 +496,11 @@ def lean_outcomes(drv, reqs, want=None, texts=None):
     out = []
     for i, (r, (a, n)) in enumerate(zip(reqs, spans)):
         e = r.gt.expr
-        if r.op != "rt":
+        if r.bop != "rt":
             if texts is not None and ans[a] == texts[i][0]:
                 out.append(want[i])
             else:
-                out.append(parse_answer(r.op, e, ans[a]))
+                out.append(parse_answer(r.bop, e, ans[a]))
             continue
         s = parse_answer("ser", e, ans[a])
         if s[0] != "ser":
@@ -522,14 +559,14 @@ def run_requests(ctx, sess, drv, stream, reqs, tally, targets=None, cross_target
     targets = sess.targets if targets is None else targets
     secs = ctx.extra.setdefault("seconds", {})
     t0 = time.time()
-    both = [ref_outcome(r.op, r.gt.expr, r.arg, with_text=True) for r in reqs]
+    both = [ref_outcome(r.bop, r.gt.expr, r.marg, with_text=True) for r in reqs]
     want_ref = [b[0] for b in both]
     texts = [b[1] for b in both]
     secs["reference"] = round(secs.get("reference", 0) + time.time() - t0, 2)
     t0 = time.time()
     want_lean = lean_outcomes(drv, reqs, want_ref, texts) if drv is not None else None
     secs["lean_driver"] = round(secs.get("lean_driver", 0) + time.time() - t0, 2)
-    nans = [G.has_nan(r.gt.expr, r.value()) if r.op != "de" else False for r in reqs]
+    nans = [G.has_nan(r.gt.expr, r.value()) if r.bop != "de" else False for r in reqs]
     # Lean vs reference: two independent readings of the same rules
     if want_lean is not None:
         for r, a, b, nan in zip(reqs, want_lean, want_ref, nans):
@@ -575,7 +612,7 @@ def run_requests(ctx, sess, drv, stream, reqs, tally, targets=None, cross_target
                             ctx.disagree(stream, {"type": r.gt.tstr, "op": r.op, "arg": r.text[:2000], "target": t.name},
                                          str(want_lean[i])[:1500], ans[:1500])
                 continue
-            got = parse_answer(r.op, e, ans)
+            got = parse_answer(r.bop, e, ans)
             outs.append(got)
             if got[0] == "na":
                 ctx.count(f"n/a:{t.lang}")
@@ -592,7 +629,8 @@ def run_requests(ctx, sess, drv, stream, reqs, tally, targets=None, cross_target
                                      str(want_lean[i])[:1500], answers[t.name][i][:1500])
             k = same_outcome(e, want_ref[i], got, nans[i])
             if k is not None:
-                sig = signature(e, want_ref[i], got, k) if got[0] in ("ser", "de", "rt") else (re.sub(r"\d+", "N", got[1])[:80] if got[0] in ("crash", "exc") else "-")
+                sig = signature(e, want_ref[i], got, k) if got[0] in ("ser", "de", "rt") else (re.sub(r"\d+", "N", re.sub(r"/\S*/", "", got[1]))[:80] if got[0] in ("crash", "exc") else
+                                                                                             got[1] if got[0] == "spelling" else "-")
                 # leaf = the primitive / item the difference sits in: a stable handle for known_findings.json matches
                 key = {"kind": f"{r.op}:{k}", "lang": t.lang, "leaf": sig.rsplit(".", 1)[-1]}
                 tally.fail(key, f"{t.name}: {r.op} of {r.gt.full_name} differs from the DSDL rules ({k} at {sig})",
@@ -609,7 +647,7 @@ def run_requests(ctx, sess, drv, stream, reqs, tally, targets=None, cross_target
             seen, generic_err = {}, []
             for n in names:
                 o = outcomes[n][i]
-                if o[0] in ("na", "crash", "exc", "garbled", "missing"):
+                if o[0] in ("na", "crash", "exc", "garbled", "missing", "spelling"):
                     continue
                 canon = o
                 if o[0] == "de":                      # consumed size is not reported by Python: compare without it
@@ -625,7 +663,7 @@ def run_requests(ctx, sess, drv, stream, reqs, tally, targets=None, cross_target
                 seen.setdefault(errg[0] if errg else ("err", "invalid"), []).extend(generic_err)
             groups = list(seen.items())
             ctx.count("cross-target-comparisons")
-            if len(groups) > 1 and not (nans[i] and r.op != "de"):
+            if len(groups) > 1 and not (nans[i] and r.bop != "de"):
                 langs = sorted({n.split("/")[0] for g in groups for n in g[1]})
                 parts = sorted(sorted(g[1]) for g in groups)
                 key = {"kind": f"cross-target:{r.op}", "langs": "+".join(langs), "split": json.dumps(parts) if len(langs) == 1 else "-"}
@@ -670,12 +708,13 @@ def maximal_value(rng, e):
     raise ValueError(e)
 
 
-def value_cases(rng, gt, n, p_invalid=0.04):
-    """zero value, two values of MAXIMUM serialized length (in-range numbers, so that Python takes part), then random ones."""
+def value_cases(rng, gt, n, p_invalid=0.04, nan_payloads=False):
+    """zero value, two values of MAXIMUM serialized length (in-range numbers, so that Python takes part), then random ones.
+    nan_payloads: see dsdlgen.gen_value (only for streams whose comparison sees NaNs through decoding)."""
     out = [G.zero_value(gt.expr), maximal_value(rng, gt.expr), maximal_value(rng, gt.expr)]
     for i in range(n):
         # every other value stays inside the DSDL ranges so that the Python target (whose setters refuse anything else) takes part
-        out.append(G.gen_value(rng, gt.expr, oob=(i % 2 == 0), p_invalid=p_invalid if i % 3 == 0 else 0.0))
+        out.append(G.gen_value(rng, gt.expr, oob=(i % 2 == 0), p_invalid=p_invalid if i % 3 == 0 else 0.0, nan_payloads=nan_payloads))
     return out
 
 
@@ -688,6 +727,246 @@ def bytes_cases(rng, gt, n_valid, n_random):
             pass
     mx = R.bounds(gt.expr)[1] // 8
     return G.gen_byte_strings(rng, encs, n_random, min(mx + 8, 300))
+
+
+# ---- values / byte strings that are invalid by LENGTH, placed at every variable-length array in turn --------------
+
+def var_array_paths(e, path=()):
+    """[(path, element type, capacity)] of every variable-length array inside e; path = child indices from the top
+    (0 for 'the element' of an array; a delimited wrapper adds nothing)."""
+    k = e[0]
+    if k == "d":
+        return var_array_paths(e[2], path)
+    out = []
+    if k == "l":
+        out.append((path, e[1], e[2]))
+    if k in "al":
+        out += var_array_paths(e[1], path + (0,))
+    elif k in "sn":
+        for i, f in enumerate(e[1]):
+            out += var_array_paths(f, path + (i,))
+    return out
+
+
+def value_with_count(rng, e, path, count, oob=False):
+    """A value of e (numbers inside the DSDL ranges unless oob) whose variable-length array at `path` has `count` elements."""
+    k = e[0]
+    if k == "d":
+        return value_with_count(rng, e[2], path, count, oob)
+    if k == "l" and not path:
+        return [G.gen_value(rng, e[1], oob=oob) for _ in range(count)]
+    if k in "al":
+        n = e[2] if k == "a" else rng.choice([1, 1, min(2, e[2]), min(3, e[2])])
+        return [value_with_count(rng, e[1], path[1:], count, oob)] + [G.gen_value(rng, e[1], oob=oob) for _ in range(n - 1)]
+    if k == "s":
+        return [value_with_count(rng, f, path[1:], count, oob) if i == path[0] else G.gen_value(rng, f, oob=oob) for i, f in enumerate(e[1])]
+    if k == "n":
+        return (path[0], value_with_count(rng, e[1][path[0]], path[1:], count, oob))
+    raise ValueError((e, path))
+
+
+def _elem_class(el):
+    return "bool" if el[0] == "b" else "byte" if el[0] in "ui" and el[1] <= 8 else "prim" if el[0] in "uif" else "composite"
+
+
+def _pick_paths(rng, e, max_paths, max_cap=2000):
+    """Up to max_paths variable-length arrays of e, every element class (bool = bit-packed storage in C, byte-like, other
+    primitive, composite) and capacities that are / are not multiples of 8 represented before any class repeats."""
+    groups = {}
+    for path, el, cap in var_array_paths(e):
+        if cap <= max_cap:
+            groups.setdefault((_elem_class(el), cap % 8 == 0), []).append((path, el, cap))
+    for g in groups.values():
+        rng.shuffle(g)
+    out = []
+    keys = sorted(groups)
+    while len(out) < max_paths and any(groups[k] for k in keys):
+        for k in keys:
+            if groups[k] and len(out) < max_paths:
+                out.append(groups[k].pop())
+    return out
+
+
+def overlong_counts(cap):
+    """Counts above the capacity: capacity + 1, the capacity rounded up to a multiple of 8 (the size of bit-packed
+    storage), and one beyond that."""
+    r8 = (cap + 8) // 8 * 8 if cap % 8 == 0 else (cap + 7) // 8 * 8
+    return sorted({cap + 1, r8, r8 + 1})
+
+
+def overlong_values(rng, gt, max_paths):
+    """Values that are invalid only because ONE variable-length array holds more elements than its capacity."""
+    out = []
+    for path, el, cap in _pick_paths(rng, gt.expr, max_paths):
+        for c in overlong_counts(cap):
+            out.append(value_with_count(rng, gt.expr, path, c))
+    return out
+
+
+def relax_caps(e):
+    """e with the capacity of every variable-length array raised to the largest count its length prefix can express
+    (same wire layout, so that the reference serializer can write a length the real type forbids)."""
+    k = e[0]
+    if k == "l":
+        return ("l", relax_caps(e[1]), (1 << G.prefix_bits(e[2])) - 1)
+    if k == "a":
+        return ("a", relax_caps(e[1]), e[2])
+    if k in "sn":
+        return (k, tuple(relax_caps(f) for f in e[1]))
+    if k == "d":
+        return ("d", e[1], relax_caps(e[2]))
+    return e
+
+
+def overcap_bytes(rng, gt, max_paths):
+    """Byte strings in which ONE length prefix exceeds the capacity of its array (everything in front of it valid)."""
+    out = []
+    relaxed = relax_caps(gt.expr)
+    for path, el, cap in _pick_paths(rng, gt.expr, max_paths):
+        for c in overlong_counts(cap):
+            if c >= (1 << G.prefix_bits(cap)):
+                continue
+            try:
+                b = R.ser(relaxed, value_with_count(rng, gt.expr, path, c))
+            except R.CodecError:
+                continue
+            out.append(b)
+            if len(b) > 1:
+                out.append(b[:rng.randrange(1, len(b))])      # and cut somewhere: the prefix may or may not survive
+    return out
+
+
+# ---- NaNs on the wire by bit pattern -------------------------------------------------------------------------------
+
+NAN_WIRE = {16: [0x7C01, 0xFC01, 0x7DFF, 0x7E00, 0xFE00, 0x7FFF, 0x7C80, 0x7D00],
+            32: [0x7F800001, 0xFF800001, 0x7F801FFF, 0x7FBFFFFF, 0x7FC00000, 0xFFC00000, 0x7FFFFFFF, 0x7F802000],
+            64: [0x7FF0000000000001, 0xFFF0000000000001, 0x7FF000001FFFFFFF, 0x7FF7FFFFFFFFFFFF, 0x7FF8000000000000, 0xFFFFFFFFFFFFFFFF]}
+
+
+def _float_leaves(e):
+    k = e[0]
+    if k == "f":
+        return 1
+    if k in "al":
+        return _float_leaves(e[1])
+    if k in "sn":
+        return sum(_float_leaves(f) for f in e[1])
+    if k == "d":
+        return _float_leaves(e[2])
+    return 0
+
+
+def nan_wire_bytes(rng, gt, n):
+    """Encodings of in-range values in which float fields carry NaN BIT PATTERNS (signalling / quiet, payload in the low
+    mantissa bits only, both signs) instead of the canonical quiet NaN the reference serializer writes."""
+    e = gt.expr
+    if not _float_leaves(e):
+        return []
+    marks = {}
+
+    def mark(e, v):
+        k = e[0]
+        if k == "f":
+            if rng.random() < 0.5:
+                x = G.bits2f(0x7FF8000000000000 + len(marks) + 1)        # a NaN that names its wire pattern
+                marks[G.f2bits(x)] = rng.choice(NAN_WIRE[e[1]])
+                return x
+            return v
+        if k in "al":
+            return [mark(e[1], x) for x in v]
+        if k == "s":
+            return [mark(f, x) for f, x in zip(e[1], v)]
+        if k == "n":
+            return (v[0], mark(e[1][v[0]], v[1]))
+        if k == "d":
+            return mark(e[2], v)
+        return v
+    out = []
+    orig = R.float_to_bits
+    try:
+        R.float_to_bits = lambda nbits, mode, x: marks[G.f2bits(x)] if x != x and G.f2bits(x) in marks else orig(nbits, mode, x)
+        for _ in range(n):
+            marks.clear()
+            v = mark(e, G.gen_value(rng, e, oob=False))
+            if marks:
+                try:
+                    out.append(R.ser(e, v))
+                except R.CodecError:
+                    pass
+    finally:
+        R.float_to_bits = orig
+    return out
+
+
+# ---- reused objects ---------------------------------------------------------------------------------------------
+
+def emptied(e, v):
+    """v with every variable-length array empty."""
+    k = e[0]
+    if k == "l":
+        return []
+    if k == "a":
+        return [emptied(e[1], x) for x in v]
+    if k == "s":
+        return [emptied(f, x) for f, x in zip(e[1], v)]
+    if k == "n":
+        return (v[0], emptied(e[1][v[0]], v[1]))
+    if k == "d":
+        return emptied(e[2], v)
+    return v
+
+
+def reuse_value_pairs(rng, gt, n):
+    """(first, second): the second value goes through objects that still hold the first (populated arrays, another
+    union option) — maximal -> zero, maximal -> emptied, random -> emptied, random -> random."""
+    e = gt.expr
+    mk = lambda: G.gen_value(rng, e, oob=False)
+    out = [(maximal_value(rng, e), G.zero_value(e)), (maximal_value(rng, e), emptied(e, mk())), (mk(), emptied(e, mk()))]
+    while len(out) < n:
+        out.append((maximal_value(rng, e) if rng.random() < 0.3 else G.gen_value(rng, e, oob=rng.random() < 0.3), G.gen_value(rng, e, oob=rng.random() < 0.3)))
+    return out[:n]
+
+
+def reuse_byte_pairs(rng, gt, n):
+    """(first, second) byte strings: the second is decoded into the object that holds the decoded first — the empty
+    string, the zero value, emptied values, proper PREFIXES of the first (the zero-extended part must not keep the
+    first's values), random strings."""
+    e = gt.expr
+
+    def enc(v):
+        try:
+            return R.ser(e, v)
+        except R.CodecError:
+            return b""
+    big = enc(maximal_value(rng, e))
+    out = [(big, b""), (big, enc(G.zero_value(e))), (big, enc(emptied(e, G.gen_value(rng, e, oob=False))))]
+    for _ in range(2):
+        if len(big) > 1:
+            out.append((big, big[:rng.randrange(1, len(big))]))
+    while len(out) < n:
+        a = enc(G.gen_value(rng, e, oob=False)) if rng.random() < 0.6 else big
+        r = rng.random()
+        if r < 0.4 and len(a) > 1:
+            b = a[:rng.randrange(0, len(a))]
+        elif r < 0.7:
+            b = enc(emptied(e, G.gen_value(rng, e, oob=False)))
+        else:
+            b = bytes(rng.getrandbits(8) for _ in range(rng.randint(0, min(len(big) + 2, 40))))
+        out.append((a, b))
+    return out[:n]
+
+
+def record_spellings(ctx, sess):
+    """Input distribution of the Python target: how often each spelling of the same input was exercised (evidence)."""
+    total = {}
+    for t in sess.targets:
+        if t.lang == "py" and hasattr(t, "stats"):
+            st = t.stats()
+            ctx.extra.setdefault("py_input_spellings", {})[t.name] = st
+            for k, v in st.items():
+                total[k] = total.get(k, 0) + v
+    for k, v in sorted(total.items()):
+        ctx.count("py-spelling:" + k, v)
 
 
 def corpus_requests(sess, prop):
@@ -704,14 +983,7 @@ def corpus_requests(sess, prop):
         gt = sess.by_name.get(c["type"])
         if gt is None:
             raise RuntimeError(f"corpus case names unknown type {c['type']}")
-        if c["op"] == "de":
-            arg = b"" if c["arg"] == "-" else bytes.fromhex(c["arg"])
-        elif c["op"] == "serbuf":
-            vs, cap = c["arg"].rsplit(" ", 1)
-            arg = (G.parse_value(gt.expr, vs), int(cap))
-        else:
-            arg = G.parse_value(gt.expr, c["arg"])
-        out.append(Req(gt, c["op"], arg, origin="corpus"))
+        out.append(Req(gt, c["op"], parse_arg(gt, c["op"], c["arg"]), origin="corpus"))
     return out
 
 
@@ -761,22 +1033,15 @@ def replay(ctx, path):
     sess = Session(0, "quick", 0, 0, texts=rp["files"], plan=plan)
     try:
         gt = sess.by_name[rp["type"]]
-        if rp["op"] == "de":
-            arg = b"" if rp["arg"] == "-" else bytes.fromhex(rp["arg"])
-        elif rp["op"] == "serbuf":
-            vs, cap = rp["arg"].rsplit(" ", 1)
-            arg = (G.parse_value(gt.expr, vs), int(cap))
-        else:
-            arg = G.parse_value(gt.expr, rp["arg"])
-        req = Req(gt, rp["op"], arg)
-        want = ref_outcome(req.op, gt.expr, req.arg)
+        req = Req(gt, rp["op"], parse_arg(gt, rp["op"], rp["arg"]))
+        want = ref_outcome(req.bop, gt.expr, req.marg)
         bad = 0
         outs = {}
         for t in sess.targets:
             a = t.ask([req.target_line()])[0]
-            got = parse_answer(req.op, gt.expr, a)
+            got = parse_answer(req.bop, gt.expr, a)
             outs[t.name] = got
-            k = same_outcome(gt.expr, want, got, G.has_nan(gt.expr, req.value()) if req.op != "de" else False)
+            k = same_outcome(gt.expr, want, got, G.has_nan(gt.expr, req.value()) if req.bop != "de" else False)
             print(json.dumps({"target": t.name, "answer": a[:1000], "expected": fmt_outcome(want), "mismatch": k}))
             bad += k is not None
         for t, stage, log in sess.build_failures:
